@@ -6,6 +6,7 @@ def run(res, tier, replay=None):
     prog = extract.load_program("default")
     res.functions = sum(1 for _ in prog.all_funcs())
     c13.run(prog, res)
+    c13.run_libc(prog, res)
     res.assumptions = common.ASSUMPTIONS + ["state inside libc / dlopen'ed libraries is out of scope",
                                             "external functions write only through non-const pointer parameters"]
     res.explanation = (
@@ -13,7 +14,8 @@ def run(res, tier, replay=None):
         "statics of the core, the C-backed libraries and main.c) is either never written - no store, increment, or address handed "
         "to a parameter through which the callee writes (one level of callee summaries, memcpy-style externals by table, other "
         "externals by const-ness of the parameter) - or is in the audited table with its allowed writer functions and the reason "
-        "it does not couple independent contexts. Not decided: races inside libc, TSan-level absence of races, heap/symbol-table "
+        "it does not couple independent contexts. A second table audits every call of a libc interface with hidden process-wide state (rand/random, strtok, localtime, getenv ...). Not decided: races inside libc, TSan-level absence of races, heap/symbol-table "
         "disjointness at run time.")
     if tier == "thorough":
-        common.thorough_mutations(res, "C13", {"C13": lambda p, r: c13.run(p, r)})
+        common.thorough_mutations(res, "C13", {"C13": lambda p, r: c13.run(p, r),
+                                                   "C13.libc": lambda p, r: c13.run_libc(p, r, floor=0)})
